@@ -34,7 +34,7 @@ class Builder:
             return self.fresh_int()
         if kind == 'str':
             self.k += 1
-            return ('%d-' % self.k) + 'x' * spec[1]
+            return ('%d-' % self.k) + (spec[2] if len(spec) > 2 else 'x') * spec[1]
         if kind == 'list':
             return [self.build(spec[2], made) for _ in range(spec[1])]
         if kind == 'tuple':
@@ -76,7 +76,10 @@ class Builder:
 
 
 def leaf():
-    return st.one_of(st.just(['int']), st.tuples(st.just('str'), st.sampled_from([0, 3, 10, 70, 2000])).map(list))
+    # text of every width a str can hold: ASCII, Latin-1, astral, NUL, and lone surrogates (what surrogateescape yields)
+    return st.one_of(st.just(['int']), st.tuples(st.just('str'), st.sampled_from([0, 3, 10, 70, 2000]),
+                                                 st.sampled_from(['x', 'x', '\xe9', '\U0001f600', '\x00', '\udc80'])
+                                                 ).map(list))
 
 
 def spec_strategy(big):
